@@ -4,6 +4,8 @@ from rules import units
 
 def check(ctx):
     rep = ctx.rep
+    from rules import escapes
+    escapes.check_write_methods(ctx, rep)
     nu, ni = units.check(ctx, rep)
     rep.floor("units in the generated database", nu, 430)
     rep.floor("unit identifiers", ni, 900)
